@@ -8,6 +8,7 @@ import inspect
 import json
 import textwrap
 import time
+import types
 import typing
 import warnings
 
@@ -586,27 +587,81 @@ def _norm_none(t):
     return type(None) if t is None else t
 
 
-def _plain_typing(t) -> bool:
-    """the comparison `library-resolved type == annotation evaluated in module scope` is meaningful:
-    no Annotated metadata / constrained-type call inside (pydantic rewrites those), only classes and
-    typing constructs"""
-    seen: set = set()
+def _skeleton(t, depth: int = 0):
+    """The shape of a resolved type with everything a library may rewrite left out: the metadata of
+    `Annotated[T, …]` (constrained types are fresh `Annotated[str, StringConstraints(…)]` objects on
+    every evaluation; pydantic strips/merges metadata) — only `T` counts.  Classes, None/NoneType,
+    Any and bare typing aliases are leaves (compared by identity/equality); anything else (ForwardRef,
+    TypeVar, a stray value) is the opaque leaf "?".  `Dict[str, constr(min_length=1)]` and
+    `Dict[NoneType, constr(min_length=1)]` differ in their skeletons — the comparison the observer
+    used before gave up on any type containing an Annotated part and was blind to exactly that."""
+    if depth > 12:
+        return "?"
+    if t is None or t is type(None):
+        return ("leaf", type(None))
+    if typing.get_origin(t) is typing.Annotated:
+        return _skeleton(typing.get_args(t)[0], depth + 1)
+    if typing.get_origin(t) is typing.Literal:
+        return ("literal", tuple(repr(a) for a in typing.get_args(t)))
+    if isinstance(t, (list, tuple)):
+        return ("seq", tuple(_skeleton(x, depth + 1) for x in t))
+    args = typing.get_args(t)
+    if args:
+        origin = typing.get_origin(t)
+        if origin is typing.Union or (hasattr(types, "UnionType") and origin is types.UnionType):
+            return ("union", frozenset(_skeleton(a, depth + 1) for a in args))
+        return ("app", origin, tuple(_skeleton(a, depth + 1) for a in args))
+    if isinstance(t, type) or t is typing.Any or getattr(t, "__module__", "") in ("typing", "collections.abc"):
+        return ("leaf", typing.get_origin(t) or t)  # bare `List` ≙ list
+    return "?"
 
-    def go(x) -> bool:
-        if id(x) in seen:
-            return True
-        seen.add(id(x))
-        if typing.get_origin(x) is typing.Annotated:
+
+def _opaque(sk) -> bool:
+    if sk == "?":
+        return True
+    if isinstance(sk, (tuple, frozenset)):
+        return any(_opaque(x) for x in sk)
+    return False
+
+
+def _differs(expected, have) -> bool | None:
+    """do the two resolved types differ in shape?  True = in a part that is not opaque; False = equal
+    and nothing opaque; None = cannot tell"""
+    a, b = _skeleton(expected), _skeleton(have)
+    r = _strip_opaque_equal(a, b)
+    if r is False:
+        return True
+    if r is True and not _opaque(a) and not _opaque(b):
+        return False
+    return None
+
+
+def _strip_opaque_equal(a, b) -> bool | None:
+    """compare two skeletons position by position, treating "?" as a wildcard; False = they differ
+    in a part that is not opaque, None = undecidable (shapes do not line up)"""
+    if a == "?" or b == "?":
+        return True
+    if isinstance(a, tuple) and isinstance(b, tuple):
+        if len(a) != len(b):
             return False
-        if isinstance(x, (list, tuple)):
-            return all(go(y) for y in x)
-        if typing.get_origin(x) is typing.Literal:
+        out = True
+        for x, y in zip(a, b):
+            r = _strip_opaque_equal(x, y)
+            if r is False:
+                return False
+            if r is None:
+                out = None
+        return out
+    if isinstance(a, frozenset) and isinstance(b, frozenset):  # union alternatives: unordered
+        if a == b:
             return True
-        if not typing.get_args(x):
-            return isinstance(x, type) or x is typing.Any or x is None or getattr(x, "__module__", "") in ("typing", "collections.abc")  # bare `List`, `Dict`, …
-        return all(go(a) for a in typing.get_args(x))
-
-    return go(t)
+        return None if (_opaque(a) or _opaque(b)) else False
+    if isinstance(a, (tuple, frozenset)) != isinstance(b, (tuple, frozenset)):
+        return False
+    try:
+        return bool(a == b)
+    except Exception:  # noqa: BLE001
+        return None
 
 
 def dynamic_observe(code: str, kind: str, hidings: list[dict], instance=None, root: str = "Model") -> dict:
@@ -685,7 +740,7 @@ def dynamic_observe(code: str, kind: str, hidings: list[dict], instance=None, ro
                     have = f.annotation
                     if typing.get_origin(expected) is typing.Annotated:
                         expected = typing.get_args(expected)[0]
-                    if not _same_type(_norm_none(expected), _norm_none(have)) and _plain_typing(expected):
+                    if _differs(expected, have):
                         obs["silent"].append({"cls": top_of[cls], "member": m, "consumer": "pydantic (class creation)", "resolved": str(have)[:80], "module_scope": str(expected)[:80]})
         if not obs["events"]:
             obs["hiding"] = hiding_check(mod, kind)
@@ -819,6 +874,16 @@ def oracle_module(ck: Check, camp, inp: dict, code: str, kind: str, executable: 
         for ev in obs["events"]:
             if ev["kind"] == "name_error":
                 name = ev["undefined"] or "?"
+                # a string-valued hiding member handed to a typing construct is taken for a forward reference: resolving
+                # it raises NameError for the STRING (`str: … = 'd'` next to `Dict[str, int]` → name 'd' is not defined)
+                strc = [i for i, p in enumerate(hid) if p["top"] == ev["top"] and p.get("str_hider") and p["effect"] in ("passed_on", "value_dependent")]
+                if strc and name not in identifiers_of(code):
+                    demonstrated.update(strc)
+                    p = hid[strc[0]]
+                    failures.append((shadow_classification(p, kind, "static+dynamic", inp, code, "exception"),
+                                     f"{ev['text']} at {ev['where']}: member {p['name']!r} of {p['cls']} has a string value that is taken for a forward reference where the "
+                                     f"{p['use_kind']} of {p['cls']}.{p['user']} reads the name {p['name']}"))
+                    continue
                 st = next((p for p in static if p["name"] == name), None)
                 at_import = ev["where"] == "module import"
                 mech = st["mechanism"] if st else ("missing_import" if at_import else "unresolved_forward_ref")
@@ -903,6 +968,19 @@ def oracle_module(ck: Check, camp, inp: dict, code: str, kind: str, executable: 
             reported.add(key)
             ck.fail(cls, dict(inp, code=code), observed)
     return False
+
+
+def identifiers_of(code: str) -> set[str]:
+    """every identifier the module's text reads or binds"""
+    out: set[str] = set()
+    for n in ast.walk(ast.parse(code)):
+        if isinstance(n, ast.Name):
+            out.add(n.id)
+        elif isinstance(n, (ast.ClassDef, ast.FunctionDef)):
+            out.add(n.name)
+        elif isinstance(n, ast.alias):
+            out.add((n.asname or n.name).split(".")[0])
+    return out
 
 
 def text_context(name: str, code: str) -> str:
@@ -1067,6 +1145,13 @@ def random_sdl(rng: Rng) -> str:
 
 
 E2E_CORPUS = [
+    # seed 5 (thorough): a string-valued member `str` next to Dict[str, int] in dataclass output: get_type_hints raises NameError for the string's text (C02-F7), not an unresolved forward reference
+    ({"title": "Doc", "type": "object", "properties": {"m": {"type": "object", "additionalProperties": {"type": "integer"}}, "str": {"type": "string", "default": "d"}}},
+     "dataclasses.dataclass", {}, None, "jsonschema"),
+    # seed 5 (quick): the observer gave up comparing `Dict[str, constr(min_length=1)]` (an Annotated part) and reported a disagreement; the key really resolves to NoneType (C02-F7)
+    ({"title": "Str", "type": "object", "required": ["conint"], "properties": {"conint": {"type": "object", "additionalProperties": {"type": "string", "minLength": 1}},
+                                                                                 "bool": {"type": "string", "format": "ipv4"}, "str": {"type": "string", "format": "path"}}},
+     "pydantic_v2.BaseModel", {"enum_field_as_literal": "all", "collapse_root_models": True}, "3.10", "jsonschema"),
     ({"type": "object", "properties": {"str": {"type": "string"}}}, "pydantic_v2.BaseModel", {}, None, "jsonschema"),
     ({"type": "object", "properties": {"int": {"type": "string"}, "n": {"type": "integer"}}}, "dataclasses.dataclass", {}, None, "jsonschema"),
     ({"type": "object", "required": ["a"], "properties": {"a": {"type": ["array", "null"], "items": {"type": "string"}}}}, "pydantic_v2.BaseModel", {}, None, "jsonschema"),
